@@ -105,6 +105,17 @@ def view_of(expr, env):
         return env[expr.id]
     if isinstance(expr, ast.Call) and isinstance(expr.func, ast.Name) and not expr.keywords and len(expr.args) == 1:
         f, a = expr.func.id, expr.args[0]
+        if f in ("tuple", "frozenset", "list", "sorted", "set") and isinstance(a, ast.Call) \
+                and isinstance(a.func, ast.Attribute) and a.func.attr in ("values", "keys") and is_name(a.func.value):
+            lost = ("order-dependent, index binding dropped: two dicts listing the same sizes in the same "
+                    "position for different indices get one key" if a.func.attr == "values"
+                    else "the sizes are dropped: two dicts with the same indices and different sizes get one key")
+            bad(expr, "%s(%s.%s()): %s (the key must contain the (index, size) pairs: tuple(%s.items()))" % (
+                f, a.func.value.id, a.func.attr, lost, a.func.value.id))
+        if f in ("tuple", "frozenset", "list", "sorted", "set", "len") and is_name(a) and a.id in env \
+                and env[a.id][0] in ("size_dict", "kwargs"):
+            bad(expr, "%s(%s): only the keys (or their number) of the dict enter the key, the values are dropped" % (
+                f, a.id))
         if f in ("tuple", "frozenset"):
             if (isinstance(a, ast.Call) and isinstance(a.func, ast.Attribute) and a.func.attr == "items"
                     and not a.args and not a.keywords and is_name(a.func.value)):
